@@ -17,7 +17,8 @@ CONSTANTS
   Log <- LogLast
 CONSTRAINT HighWater
 INVARIANTS
-  Inv_C25_HashIndex Inv_C25_HashIndex_AfterStaleSweep Inv_C25_Counts Inv_C25_Order Inv_C25_SenderLimits
+  Inv_C25_HashIndex Inv_C25_HashIndex_AfterStaleSweep Inv_C25_Counts Inv_C25_Order
   Inv_C26_AtMostN Inv_C26_DistinctPooled Inv_C26_Prefix Inv_C26_NoSkip Inv_C26_NoSkip_AfterNonce0 Inv_C26_GapSender
+PROPERTIES Act_C25_SenderLimits Act_C25_SenderLimits_OneEvictionPerAdd
 POSTCONDITION Accepted
 CHECK_DEADLOCK FALSE
